@@ -161,9 +161,10 @@ Proof.
     by (intros; repeat split).
   assert (HN : opt_lt None (x_next s)) by (intros x Hx; discriminate).
   pose proof HJ as (_ & _ & HF & HD).
-  destruct ((id / 1000 =? 201)%N || (id / 1000 =? 202)%N || (id / 1000 =? 203)%N || (id / 1000 =? 206)%N
+  destruct ((id / 1000 =? 201)%N || (id / 1000 =? 202)%N || (id / 1000 =? 206)%N
             || (id / 1000 =? 207)%N || (id / 1000 =? 208)%N).
   { injection E as <- <-. apply Step_refl, HJ. }
+  destruct (id / 1000 =? 203)%N; [injection E as <- <-; apply (Step_same s); try reflexivity; exact HJ|].
   destruct (id / 1000 =? 204)%N.
   { destruct (Z.of_N (id mod 1000) =? 0)%Z.
     - destruct (x_assoc s); [discriminate|]. injection E as <- <-. apply (Step_same s); try reflexivity. exact HJ.
@@ -230,8 +231,11 @@ Proof.
     assert (S0 : Step s s0) by (unfold s0; destruct (x_dnp s =? 0)%Z; [apply Step_refl|apply Step_same; reflexivity]).
     destruct (negb (x_dnp s =? 0)%Z && dnp_skips d).
     + eapply Step_trans; [exact S0|eapply IHds; exact E].
-    + dbind E as [n s1] into E1.
-      eapply Step_trans; [exact S0|]. eapply Step_trans; [eapply IHd; exact E1|eapply IHds; exact E].
+    + destruct (x_def s0 && is_plain_elem d).
+      * dbind E as [i s1] into Ev.
+        eapply Step_trans; [exact S0|]. eapply Step_trans; [eapply Step_value; exact Ev|eapply IHds; exact E].
+      * dbind E as [n s1] into E1.
+        eapply Step_trans; [exact S0|]. eapply Step_trans; [eapply IHd; exact E1|eapply IHds; exact E].
 Qed.
 
 (* C07: every attribute of the hierarchical view is where the links (or the 204 rule) put it *)
